@@ -34,8 +34,8 @@ def check(ix, rep):
         other = offsum.get(ncname)
         if nf[0] == 'unknown':
             if ref is not None:
-                raise AnalysisError('%s: %s.update is no longer in a summarised idiom (%s); it was decided on the pinned tree'
-                                    % (f.where, opc.name, nf[1]))
+                rep.error('%s: %s.update is no longer in a summarised idiom (%s); it was decided on the pinned tree' % (f.where, opc.name, nf[1]))
+                continue
             rep.undecided('R-OPSUM', f.module.rel, '%s.update' % opc.name, slot, 'deque/window arithmetic is not summarised (%s)' % nf[1][:50], f.node.lineno)
             continue
         if other is None or other[0] == 'unknown':
